@@ -16,11 +16,15 @@ UNDECIDED = ['byte-level equality of arbitrary field contents', 'EndTxnResp (not
 ASSUMPTIONS = []
 
 def inline_policy(c):
-    return c.endswith('core::default::Default>::default') or c in ('ldap3::controls_impl::read_entry::from_read_entry',) \
-        or 'From<ldap3::controls_impl::content_sync::RefreshMode> for i64' in c
+    """Default impls and every function of the control / exop modules themselves (private helpers, integer conversions of their
+    enums) are evaluated interprocedurally; the filter compiler is not (the spec names its call)."""
+    return c.endswith('core::default::Default>::default') or 'ldap3::controls_impl::' in c or 'ldap3::exop_impl::' in c
 
-def F(p, *names):
-    return field_of(param(p), *names)
+def any_param(t, env=None):
+    """the (single) parameter of the conversion / parser, whatever it is called"""
+    return strip(t)[0] == 'param'
+def F(_p, *names):
+    return field_of(any_param, *names)
 def some_of(pred):
     return lambda t, env: t[0] == 'variant' and t[2] == 'Some' and t[3] == 0 and pred(t[1], env)
 def is_some_pc(pred):
@@ -49,10 +53,11 @@ def known_bool(pred):
         return False
     return f
 def sync_mode(t, env):
-    for a, tr in env['pc']:
-        if a[0] == 'is' and a[2] == 'RefreshMode::RefreshOnly':
-            return t == ('lit', 1 if tr else 3)        # RFC 4533: refreshOnly (1), refreshAndPersist (3)
-    return False
+    """RFC 4533: mode ENUMERATED { refreshOnly (1), refreshAndPersist (3) }, selected by the request's `mode` field (whichever
+    variant the code tests for)"""
+    import sem
+    only = sem.variant_truth(env['pc'], lambda x: F('sr', 'mode')(x, env), 'RefreshMode::RefreshOnly', ['RefreshMode::RefreshOnly', 'RefreshMode::RefreshAndPersist'])
+    return only is not None and t == ('lit', 1 if only else 3)
 
 RAW, NONE = 'raw', 'none'
 ENCODERS = [
@@ -163,15 +168,15 @@ def run(ctx):
         ok = len(st) == 1
         if ok:
             fl = {x['name']: x['e'] for x in st[0]['fields']}
-            ok = hirq.const_eval(f, fl['oid']) == oid and B.origin(fl['attrs']) == (('param', 'attrs'), ())
+            ok = hirq.const_eval(f, fl['oid']) == oid and B.origin(fl['attrs'])[0][0] == 'param' and B.origin(fl['attrs'])[1] == ()
         ctx.add('X.read-entry-oid', p.split('::')[-3], loc(B.root), ok, 'ReadEntry is not built with OID %s and the caller\'s attribute list' % oid)
     # CriticalControl
     cc = [p for p in f.hir if 'From<ldap3::controls_impl::CriticalControl<T>>' in p and p.endswith('::from')]
     B = hirq.Body(f, f.body(anchors.one('From<CriticalControl<T>>', cc)))
     ctx.analysed['bodies'].add(B.path)
     for o in absx.Interp(f, B).run():
-        base = ('field', ('param', 'cc'), 'control')
-        ok = o.val == base and o.st.heap.get(('field', base, 'crit')) == ('lit', True)
+        base = o.val
+        ok = F('cc', 'control')(base, {}) and o.st.heap.get(('field', base, 'crit')) == ('lit', True)
         ctx.add('X.critical-wrapper', 'CriticalControl', loc(B.root), ok, 'CriticalControl must encode the wrapped control and set crit = true')
 
     # ------------------------------------------------------------------ decoders
@@ -190,7 +195,7 @@ def run(ctx):
             and has_arg(size, 'match_id', lambda a: a == ('lit', 2)) and has_arg(size, 'match_class', lambda a: a == ('ctor', 'TagClass::Universal', ()))
         ctx.add('Y.paged.size', 'child 0', loc(B.root), ok, 'size is not parse_uint of child 0 as universal INTEGER primitive: %s' % absx.fmt(size)[:100])
         ctx.add('Y.paged.cookie', 'child 1', loc(B.root), nths(cookie) == [1] and 'expect_primitive' in calls_in(cookie), 'cookie is not the content of child 1')
-        ctx.add('Y.paged.input', 'val', loc(B.root), 'parse_tag' in calls_in(size) and absx.leaves(size, lambda x: x == ('param', 'val')) != [], 'the parsed bytes are not the control value')
+        ctx.add('Y.paged.input', 'val', loc(B.root), 'parse_tag' in calls_in(size) and absx.leaves(size, lambda x: x[0] == 'param') != [], 'the parsed bytes are not the control value')
     # SyncState
     B, outs = parse_paths('<ldap3::controls_impl::content_sync::SyncState as ' + CP)
     table = {}
@@ -209,28 +214,8 @@ def run(ctx):
                 ck == ('ctor', 'None', ()) or (ck[0] == 'ctor' and ck[1] == 'Some' and nths(ck) == [2] and 'expect_primitive' in calls_in(ck)), 'cookie is not the optional content of child 2')
     want = {0: 'EntryState::Present', 1: 'EntryState::Add', 2: 'EntryState::Modify', 3: 'EntryState::Delete'}     # RFC 4533 2.3
     ctx.add('Y.syncstate.state-table', 'EntryState', loc(B.root), table == want, 'state table %s, RFC 4533: %s' % (table, want))
-    # SyncDone (for loop over the components)
-    B, outs = parse_paths('<ldap3::controls_impl::content_sync::SyncDone as ' + CP, for_once=True)
-    seen = set()
-    for o in outs:
-        fl = dict(o.val[2])
-        ids = [a[3] for a, t in o.st.pc if t and a[0] == 'bin' and a[1] == 'Eq' and a[2][0] in ('field', 'vfield') and a[2][-1] == 'id']
-        ck, rd = fl.get('cookie'), fl.get('refresh_deletes')
-        # what the components seen so far have left in the two accumulators (loop-carried state of the component loop)
-        cin = [e[2] for e in o.st.ev if e[0] == 'loop-carried' and e[3]['k'] == 'For']
-        if ('lit', 4) in ids:
-            seen.add('cookie')
-            ok = ck[0] == 'ctor' and ck[1] == 'Some' and absx.leaves(ck, lambda x: x[0] == 'elem') and len(cin) == 2 and rd in cin and rd in (absx.TRUE, absx.FALSE)
-            ctx.add('Y.syncdone.cookie', 'OCTET STRING', loc(B.root), ok, 'an OCTET STRING component must become the cookie and leave refreshDeletes as it was')
-        elif ('lit', 1) in ids:
-            seen.add('flag')
-            idx = absx.leaves(rd, lambda x: x[0] == 'index')
-            ok = rd[0] == 'not' and len(idx) == 1 and idx[0][2] == ('lit', 0) and rd[1] == ('bin', 'Eq', idx[0], ('lit', 0)) and len(cin) == 2 and ck in cin and ck[0] == 'carried'
-            ctx.add('Y.syncdone.refresh-deletes', 'BOOLEAN', loc(B.root), ok, 'a BOOLEAN component must become refreshDeletes = content[0] != 0 and leave the cookie as it was')
-    empty = [o for o in absx.Interp(f, B, unroll=1).run() if o.kind in ('val', 'ret') and o.val[0] == 'struct' and dict(o.val[2]).get('cookie') == ('ctor', 'None', ()) and dict(o.val[2]).get('refresh_deletes') == ('lit', False)]
-    ctx.add('Y.syncdone.defaults', 'empty sequence', loc(B.root), bool(empty), 'an empty SyncDone value must decode to (no cookie, refreshDeletes FALSE)')
-    for need in ('cookie', 'flag'):
-        ctx.add('Y.syncdone.coverage', need, loc(B.root), need in seen, 'no decoder path for the %s component' % need)
+    # SyncDone (inductive argument over the component loop)
+    check_syncdone(ctx, f)
     # parse_syncinfo
     check_syncinfo(ctx, f)
     # the control envelope both ways (shared rule functions)
@@ -245,7 +230,7 @@ def run(ctx):
         fl = dict(o.val[2])
         se = fl.get('attrs', ('unk',))[1] if fl.get('attrs', ('unk',))[0] == 'field' else None
         ok = se is not None and se[0] == 'call' and se[1] == 'ldap3::search::SearchEntry::construct' and fl.get('bin_attrs') == ('field', se, 'bin_attrs') and fl['attrs'][2] == 'attrs'
-        ok = ok and 'parse_tag' in calls_in(se) and absx.leaves(se, lambda x: x == ('param', 'val')) != []
+        ok = ok and 'parse_tag' in calls_in(se) and absx.leaves(se, lambda x: x[0] == 'param') != []
         ctx.add('Y.readentry', 'attrs/bin_attrs', loc(B.root), ok, 'ReadEntryResp is not SearchEntry::construct of the parsed value (C15 decides construct)')
     ctx.floor('Y', 'ReadEntryResp paths', len(outs), 1)
     # PasswordModifyResp
@@ -262,68 +247,240 @@ def run(ctx):
         for o in outs:
             g = dict(o.val[2]).get(field, ('unk',))
             fu = absx.leaves(g, lambda x: x[0] == 'call' and x[1].endswith('from_utf8'))
-            ok = len(fu) == 1 and fu[0][2][0] == ('param', 'val') and not nths(g)
+            ok = len(fu) == 1 and fu[0][2][0][0] == 'param' and not nths(g)
             ctx.add('Y.whole-value-utf8', path.split('::')[-3] if False else field, loc(B.root), ok, '%s is not the whole response value as UTF-8' % field)
         ctx.floor('Y', field + ' paths', len(outs), 1)
 
 
+
+# ---------------------------------------------------------------------------------------
+# Decoders that fold a sequence of optional components into accumulators (SyncDone, the Sync Info alternatives).
+#
+# They are decided by an inductive argument over ONE generic iteration of the component loop, evaluated by the interpreter from
+# every state an earlier iteration can leave behind (`for`, `while let`, `loop { match it.next() .. }`, with or without a
+# position counter, are the same thing here):
+#   init   the accumulators start at the values the RFC gives for absent components (read from the loop-entry state),
+#   exit   when the sequence is exhausted the decoded struct's fields are exactly the accumulators,
+#   step   a component with a given (class, tag number) replaces exactly the accumulator the RFC assigns to that tag, by the
+#          value its content denotes, and leaves the others as they were.
+# The tag tests of the decoder are not read off its source: the tag fields of the generic component (and of the CHOICE value) are
+# fixed to each member of a finite partition in turn (interpreter field hook) and the decoder's own conditions are evaluated on them,
+# whatever form they have (guards, tuple patterns, if-chains, ranges, constants on either side).
+
+def has(t, pred):
+    return bool(absx.leaves(t, pred))
+
+def elem_depth(t):
+    """Nesting depth of element-of-a-sequence steps (generic loop element / cursor read) in a term."""
+    if not isinstance(t, tuple):
+        return 0
+    d = max([elem_depth(x) for x in t if isinstance(x, tuple)] or [0])
+    return d + 1 if t and t[0] in ('elem', 'nth') else d
+
+def kind_of(base):
+    """What a term whose tag fields are read denotes: ('elem', n) an element of a sequence nested n levels below the decoder's
+    input, ('parsed', n) a value produced by parse_tag from bytes found at nesting level n."""
+    b = base
+    while b[0] in ('variant', 'field', 'vfield'):
+        b = b[1]
+    if b[0] in ('elem', 'nth'):
+        return ('elem', elem_depth(b) - 1)
+    if b[0] == 'call' and b[1].endswith('::parse_tag'):
+        return ('parsed', elem_depth(b))
+    return None
+
+def tag_hook(spec, generic=()):
+    """Interpreter field hook fixing `class` / `id` of the terms of the given kinds: {kind: (class name or None, number or None)}.
+    The kinds listed in `generic` stay unconstrained while the interpreter discovers the loop-carried states, so that the step
+    for one tag is evaluated from the states that components of *any* tag can leave behind."""
+    def h(base, name, st):
+        if name not in ('id', 'class'):
+            return None
+        k = kind_of(base)
+        if k in generic and getattr(h, 'interp', None) is not None and getattr(h.interp, 'in_fixpoint', 0):
+            return None
+        v = spec.get(k)
+        if v is None:
+            return None
+        if name == 'id':
+            return ('lit', v[1]) if v[1] is not None else None
+        return ('ctor', 'TagClass::' + v[0], ()) if v[0] is not None else None
+    return h
+
+def is_content(t, of):
+    """t denotes the primitive content octets of a tag term satisfying `of` (either spelling: expect_primitive() or the PL::P payload)"""
+    if t[0] == 'variant' and t[3] == 0:
+        if t[2] == 'Some' and t[1][0] == 'call' and t[1][1].endswith('::expect_primitive') and len(t[1][2]) == 1:
+            return of(t[1][2][0])
+        if t[2] == 'PL::P' and t[1][0] == 'field' and t[1][2] == 'payload':
+            return of(t[1][1])
+    return False
+
+def is_opt_content(t, of):
+    """t denotes Some(content) of a primitive tag term (None for a constructed one is the decoder's business)"""
+    if t[0] == 'call' and t[1].endswith('::expect_primitive') and len(t[2]) == 1:
+        return of(t[2][0])
+    return t[0] == 'ctor' and t[1] == 'Some' and len(t[2]) == 1 and is_content(t[2][0], of)
+
+def is_children(t, of):
+    """t denotes the child list of a constructed tag term satisfying `of`"""
+    if t[0] == 'variant' and t[3] == 0:
+        if t[2] == 'Some' and t[1][0] == 'call' and t[1][1].endswith('::expect_constructed') and len(t[1][2]) == 1:
+            return of(t[1][2][0])
+        if t[2] == 'PL::C' and t[1][0] == 'field' and t[1][2] == 'payload':
+            return of(t[1][1])
+    return False
+
+def is_ber_boolean(t, of):
+    """t is TRUE exactly when the first content octet of a tag term satisfying `of` is non-zero (X.690 8.2.2), decided by
+    evaluating t for all 256 values of that octet - `!= 0`, `> 0`, `!(.. == 0)` are the same function, `== 0xFF` is not."""
+    first = {x for x in absx.leaves(t, lambda x: x[0] == 'index' and x[2] == ('lit', 0) and is_content(x[1], of))}
+    if len(first) != 1:
+        return False
+    x = next(iter(first))
+    try:
+        return all(absx.eval_term(t, {x: v}) is (v != 0) for v in range(256))
+    except absx.NotEvaluable:
+        return False
+
+def component_loop(f, B, hook, is_result):
+    """One generic evaluation of a decoder.  Returns (exits, steps):
+    exits  [(returned value, {binding: value carried into this iteration}, {binding: value at loop entry}, path)] for the paths
+           that return a decoded value,
+    steps  [({binding: carried value}, {binding: value at the back edge}, path)] for the paths on which one component was
+           consumed and the component loop goes round again."""
+    I = absx.Interp(f, B, unroll=1, generic_loops=True, field_hook=hook)
+    if hook is not None:
+        hook.interp = I
+    outs = I.run()
+    exits, steps = [], []
+    for o in outs:
+        evs = [e for e in o.st.ev if e[0] == 'loop-carried']
+        if o.kind in ('val', 'ret') and is_result(o.val):
+            exits.append((o.val, {e[1]: e[2] for e in evs}, {e[1]: e[4] for e in evs}, o))
+        elif o.kind == 'loop' and evs and all(e[3].get('id') == o.target for e in evs):
+            steps.append(({e[1]: e[2] for e in evs}, {e[1]: o.st.env.get(e[1]) for e in evs}, o))
+    return exits, steps
+
+def accumulator_roles(exits, fields):
+    """field of the decoded struct -> the loop-carried binding it returns on every path that leaves the component loop"""
+    r = {}
+    for F in fields:
+        cands = None
+        for v, start, _init, _o in exits:
+            fv = dict(v[2]).get(F) if v[0] == 'struct' else None
+            s = {b for b, x in start.items() if fv is not None and fv == x}
+            cands = s if cands is None else (cands & s)
+        if cands and len(cands) == 1:
+            r[F] = next(iter(cands))
+    return r
+
+T_NONE = ('ctor', 'None', ())
+def is_empty_set(t):
+    return t[0] == 'call' and 'HashSet' in t[1] and t[1].rsplit('::', 1)[-1] in ('new', 'default', 'with_capacity') and not has(t, lambda x: x[0] in ('elem', 'nth'))
+
+def check_steps(ctx, rule, inst, where, steps, roles, changed, pred, what):
+    """Every back-edge path must replace accumulator `changed` (None: none of them) by a value satisfying pred and keep the others"""
+    bad = []
+    for start, new, o in steps:
+        for F, b in roles.items():
+            if F == changed:
+                if not pred(new.get(b)):
+                    bad.append('%s becomes %s' % (F, absx.fmt(new.get(b) or ('unk',))[:90]))
+            elif new.get(b) != start.get(b):
+                bad.append('%s is overwritten with %s' % (F, absx.fmt(new.get(b) or ('unk',))[:60]))
+    if changed is not None and not steps:
+        bad.append('no decoder path consumes such a component')
+    ctx.add(rule, inst, where, not bad, '%s: %s' % (what, '; '.join(sorted(set(bad)))[:300]))
+
+UNIVERSAL_OTHERS = (2, 5, 10, 16)     # representatives of the universal tags that neither decoder assigns a meaning to
+
+def check_syncdone(ctx, f):
+    """RFC 4533 2.4: syncDoneValue ::= SEQUENCE { cookie syncCookie OPTIONAL, refreshDeletes BOOLEAN DEFAULT FALSE }"""
+    B = hirq.Body(f, f.body('<ldap3::controls_impl::content_sync::SyncDone as ldap3::controls_impl::ControlParser>::parse'))
+    ctx.analysed['bodies'].add(B.path)
+    L = loc(B.root)
+    COMP = ('elem', 0)
+    comp = lambda c: kind_of(c) == COMP
+    is_sd = lambda v: v[0] == 'struct' and v[1].endswith('SyncDone')
+    exits, _ = component_loop(f, B, None, is_sd)
+    roles = accumulator_roles(exits, ('cookie', 'refresh_deletes'))
+    ctx.add('Y.syncdone.coverage', 'result', L, bool(exits) and len(roles) == 2,
+            'the decoded SyncDone is not (cookie, refreshDeletes) as left by the component loop (accumulators found: %s)' % sorted(roles))
+    if len(roles) != 2:
+        return
+    inits = {F: {absx.fmt(i[b]) for _v, _s, i, _o in exits} for F, b in roles.items()}
+    ok = all(i[roles['cookie']] == T_NONE and i[roles['refresh_deletes']] == absx.FALSE for _v, _s, i, _o in exits)
+    ctx.add('Y.syncdone.defaults', 'empty sequence', L, ok, 'an empty SyncDone value must decode to (no cookie, refreshDeletes FALSE), found %s' % {k: sorted(v) for k, v in inits.items()})
+    for tagno, inst, rule, changed, pred, what in (
+            (4, 'OCTET STRING', 'Y.syncdone.cookie', 'cookie', lambda t: t is not None and is_opt_content(t, comp), 'an OCTET STRING component must become the cookie and leave refreshDeletes as it was'),
+            (1, 'BOOLEAN', 'Y.syncdone.refresh-deletes', 'refresh_deletes', lambda t: t is not None and is_ber_boolean(t, comp), 'a BOOLEAN component must become refreshDeletes = content[0] != 0 and leave the cookie as it was')) \
+            + tuple((n, 'universal %d' % n, 'Y.syncdone.other-component', None, None, 'a component that RFC 4533 does not define must not change the decoded value') for n in UNIVERSAL_OTHERS):
+        _e, steps = component_loop(f, B, tag_hook({COMP: ('Universal', tagno)}, generic=(COMP,)), is_sd)
+        check_steps(ctx, rule, inst, L, steps, roles, changed, pred, what)
+
+SYNC_INFO_OID = '1.3.6.1.4.1.4203.1.9.1.4'
+
 def check_syncinfo(ctx, f):
+    """RFC 4533 2.5: syncInfoValue ::= CHOICE { newcookie [0] syncCookie,
+         refreshDelete [1] SEQUENCE { cookie syncCookie OPTIONAL, refreshDone BOOLEAN DEFAULT TRUE },
+         refreshPresent [2] SEQUENCE { cookie syncCookie OPTIONAL, refreshDone BOOLEAN DEFAULT TRUE },
+         syncIdSet [3] SEQUENCE { cookie syncCookie OPTIONAL, refreshDeletes BOOLEAN DEFAULT FALSE, syncUUIDs SET OF syncUUID } }
+    carried in an IntermediateResponse (25) whose responseName [0] is the Sync Info OID and whose responseValue [1] holds the value."""
     p = 'ldap3::controls_impl::content_sync::parse_syncinfo'
     B = hirq.Body(f, f.body(p))
     ctx.analysed['bodies'].add(p)
-    outs = absx.Interp(f, B, unroll=2).run()
-    got = {}
-    for o in outs:
-        if o.kind not in ('val', 'ret') or o.val[0] not in ('ctor', 'struct'):
+    L = loc(B.root)
+    OUTER, CHOICE, COMP = ('elem', 0), ('parsed', 1), ('elem', 1)
+    choice = lambda c: kind_of(c) == CHOICE
+    comp = lambda c: kind_of(c) == COMP
+    is_si = lambda v: v[0] in ('ctor', 'struct') and v[1].startswith('SyncInfo::')
+    WANT = {0: ('SyncInfo::NewCookie', None, None), 1: ('SyncInfo::RefreshDelete', 'refresh_done', True),
+            2: ('SyncInfo::RefreshPresent', 'refresh_done', True), 3: ('SyncInfo::SyncIdSet', 'refresh_deletes', False)}
+    all_exits = []
+    for cid in (0, 1, 2, 3, 4, 5, 7):
+        exits, _ = component_loop(f, B, tag_hook({CHOICE: ('Context', cid)}), is_si)
+        all_exits += exits
+        names = sorted({v[1] for v, _s, _i, _o in exits})
+        if cid not in WANT:
+            ctx.add('Y.syncinfo.choice', '[%d]' % cid, L, not exits, 'syncInfoValue [%d] is not defined by RFC 4533 but decodes to %s' % (cid, names))
             continue
-        v = o.val
-        # the CHOICE tag examined on this path
-        ids = [a[3][1] for a, t in o.st.pc if t and a[0] == 'bin' and a[1] == 'Eq' and a[3][0] == 'lit' and a[2][0] in ('field', 'vfield') and a[2][-1] == 'id' and 'parse_tag' in calls_in(a[2])]
-        if not ids:
+        name, flagf, dflt = WANT[cid]
+        if cid == 0:
+            ok = bool(exits) and all(v[0] == 'ctor' and v[1] == name and len(v[2]) == 1 and is_content(v[2][0], choice) for v, _s, _i, _o in exits)
+            ctx.add('Y.syncinfo.choice', '[0]', L, ok, 'syncInfoValue [0] must decode to NewCookie(content of the value), found %s' % [absx.fmt(v)[:80] for v, _s, _i, _o in exits][:3])
             continue
-        cid = ids[-1]
-        name = v[1]
-        flag = None
-        if v[0] == 'struct':
-            fl = dict(v[2])
-            fv = fl.get('refresh_done', fl.get('refresh_deletes'))
-            flag = eval_under(o.st, fv)
-            # only the paths on which no component was present give the defaults
-            if fl.get('cookie') != ('ctor', 'None', ()) or absx.leaves(fv, lambda x: x[0] == 'index'):
-                continue
-        got.setdefault(cid, set()).add((name, flag))
-    want = {0: {('SyncInfo::NewCookie', None)}, 1: {('SyncInfo::RefreshDelete', True)}, 2: {('SyncInfo::RefreshPresent', True)}, 3: {('SyncInfo::SyncIdSet', False)}}
-    for cid in sorted(set(got) | set(want)):
-        ctx.add('Y.syncinfo.choice', '[%d]' % cid, loc(B.root), got.get(cid) == want.get(cid),
-                'syncInfoValue [%d] decodes to %s with default flag; RFC 4533: %s (refreshDone DEFAULT TRUE, refreshDeletes DEFAULT FALSE)' % (cid, sorted(got.get(cid, []), key=str), sorted(want.get(cid, []), key=str)))
-    # outer framing: responseName [0] must equal the Sync Info OID, value in [1], message must be IntermediateResponse (25)
-    oid_ok = any(n['k'] == 'Binary' and n['op'] == 'Ne' and hirq.const_eval(f, n['r']) == '1.3.6.1.4.1.4203.1.9.1.4' for n, c in walk(B.root))
-    ctx.add('Y.syncinfo.oid', 'responseName', loc(B.root), oid_ok, 'the intermediate response name is not compared with 1.3.6.1.4.1.4203.1.9.1.4')
-    m25 = any(n['k'] == 'MethodCall' and n['name'] == 'match_id' and hirq.const_eval(f, n['args'][0]) == 25 for n, c in walk(B.root))
-    ctx.add('Y.syncinfo.intermediate', '25', loc(B.root), m25, 'the entry is not required to be an IntermediateResponse (25)')
-    # per-component table inside [1..3]: OCTET STRING -> cookie, BOOLEAN -> flag, SET -> uuids
-    comp = {}
-    for n, c in walk(B.root):
-        if n['k'] == 'Match':
-            for a in n['arms']:
-                g = a.get('guard')
-                if g is None:
-                    continue
-                tys = [hirq.short_def(x.get('ctor_of') or x.get('def') or '') for x, _ in walk(g) if x['k'] == 'Path' and 'universal::Types::' in (x.get('def') or '')]
-                asg = [hirq.local_of(x['l']) for x, _ in walk(a['body']) if x['k'] == 'Assign']
-                names = [B.defs[b]['name'] for b in asg if b in B.defs]
-                if tys and names:
-                    comp[tys[0]] = names[0]
-    want_c = {'Types::OctetString': 'sync_cookie', 'Types::Boolean': 'flag', 'Types::Set': 'uuids'}
-    ctx.add('Y.syncinfo.components', 'cookie/flag/uuids', loc(B.root), comp == want_c, 'component table %s, expected %s' % (comp, want_c))
-
-def eval_under(st, t):
-    if t is None:
-        return None
-    if t[0] == 'lit':
-        return t[1]
-    if t[0] == 'not':
-        r = eval_under(st, t[1])
-        return None if r is None else (not r)
-    k = st.known(t)
-    return k
+        fields = ('cookie', flagf) + (('sync_uuids',) if cid == 3 else ())
+        roles = accumulator_roles(exits, fields)
+        got = {}
+        for _v, _s, i, _o in exits:
+            for F, b in roles.items():
+                got.setdefault(F, set()).add(absx.fmt(i[b]))
+        ok = bool(exits) and names == [name] and len(roles) == len(fields) \
+            and all(i[roles['cookie']] == T_NONE and i[roles[flagf]] == ('lit', dflt) and (cid != 3 or is_empty_set(i[roles['sync_uuids']])) for _v, _s, i, _o in exits)
+        ctx.add('Y.syncinfo.choice', '[%d]' % cid, L, ok,
+                'syncInfoValue [%d] decodes to %s with the fields %s holding, before any component is seen, %s; RFC 4533: %s with no cookie, %s DEFAULT %s%s'
+                % (cid, names, sorted(roles), {k: sorted(v) for k, v in sorted(got.items())}, name, flagf, str(dflt).upper(), ', no UUIDs' if cid == 3 else ''))
+        if len(roles) != len(fields):
+            continue
+        table = [(4, 'OCTET STRING', 'cookie', lambda t: t is not None and is_opt_content(t, comp), 'an OCTET STRING component is the cookie'),
+                 (1, 'BOOLEAN', flagf, lambda t: t is not None and is_ber_boolean(t, comp), 'a BOOLEAN component is %s = content[0] != 0' % flagf)]
+        if cid == 3:
+            table.append((17, 'SET', 'sync_uuids', lambda t: t is not None and t[0] == 'many' and len(t) == 4 and is_children(t[1], comp) and t[2][0] == 'elem' and t[2][1] == t[1]
+                          and is_content(t[3], lambda c, el=None, t=t: c == t[2]), 'a SET component is the set of the contents of its members'))
+        table += [(n, 'universal %d' % n, None, None, 'a component that RFC 4533 does not define must not change the decoded value') for n in UNIVERSAL_OTHERS]
+        for tagno, inst, changed, pred, what in table:
+            _e, steps = component_loop(f, B, tag_hook({CHOICE: ('Context', cid), COMP: ('Universal', tagno)}, generic=(COMP,)), is_si)
+            check_steps(ctx, 'Y.syncinfo.components', '[%d] %s' % (cid, inst), L, steps, roles, changed, pred, what + ' and leaves the other fields as they were')
+    # outer framing, on the paths: the message must be an IntermediateResponse (25); a responseName [0] that is accepted equals the OID
+    def is_intermediate(o):
+        return any(t and a[0] == 'is' and a[2] == 'Some' and a[1][0] == 'call' and a[1][1].endswith('::match_id') and len(a[1][2]) == 2 and a[1][2][1] == ('lit', 25)
+                   and has(a[1][2][0], lambda x: x[0] == 'param') for a, t in o.st.pc)
+    ctx.add('Y.syncinfo.intermediate', '25', L, bool(all_exits) and all(is_intermediate(o) for _v, _s, _i, o in all_exits),
+            'a Sync Info value is decoded from an entry that was not required to be an IntermediateResponse (25)')
+    outs = [o for o in absx.Interp(f, B, unroll=1, generic_loops=True, field_hook=tag_hook({OUTER: (None, 0)})).run() if o.kind != 'div']
+    def name_checked(o):
+        return any(t and a[0] == 'bin' and a[1] == 'Eq' and ('lit', SYNC_INFO_OID) in (a[2], a[3]) and has(a, lambda x: x[0] == 'call' and x[1].endswith('from_utf8'))
+                   and has(a, lambda x: kind_of(x) == OUTER) for a, t in o.st.pc)
+    ctx.add('Y.syncinfo.oid', 'responseName', L, bool(outs) and all(name_checked(o) for o in outs),
+            'a responseName [0] is accepted without having been found equal to %s' % SYNC_INFO_OID)
